@@ -328,3 +328,71 @@ def forward_ref_contract(repo: Repo):
            "locals -- never with the generated code's namespace as locals, where the generator's own imports (Dialect, Field, datetime ...) would shadow the user's names")
     exp = [("evaluate_forward_ref(typ, get_forward_ref_referencing_globals(typ, owner, B.globals), B.__dict__)", {}, [])]
     return outcome_contract(repo, "CodeBuilder.evaluate_forward_ref", exp, [Sym("typ"), Sym("owner")], why=why)
+
+
+
+def type_param_collection_contract(repo: Repo):
+    """collect_type_params returns each type variable once (in order of first occurrence): substitute_type_params passes
+    the collected list to `typ[...]`, and a duplicate makes that subscription fail (the TypeError is suppressed) so the
+    annotation stays unsubstituted and nested generic dataclasses are compiled for bare TypeVars (= Any: no conversion)."""
+    from .srcmodel import M_HELPERS
+
+    why = type_param_collection_contract.__doc__.split(":", 1)[1].strip()
+    fi = repo.func(M_HELPERS, "collect_type_params")
+    acc = None
+    for st in fi.node.body:
+        if isinstance(st, ast.Assign) and isinstance(st.value, ast.List) and not st.value.elts and isinstance(st.targets[0], ast.Name):
+            acc = st.targets[0].id
+    if acc is None:
+        return [(None, "collect_type_params: accumulator list not found", why)]
+    out = []
+
+    def guarded(var: str, guards, earlier) -> bool:
+        for g in guards:
+            t = ast.unparse(g)
+            if t == f"{var} not in {acc}":
+                return True
+        for e in earlier:  # `if x in acc: continue` earlier in the same if-chain
+            if ast.unparse(e) == f"{var} in {acc}":
+                return True
+        return False
+
+    def walk(stmts, guards, chain_tests):
+        for st in stmts:
+            if isinstance(st, ast.If):
+                walk(st.body, guards + [st.test], chain_tests)
+                walk(st.orelse, guards, chain_tests + ([st.test] if st.body and isinstance(st.body[-1], ast.Continue) else []))
+            elif isinstance(st, (ast.For, ast.While)):
+                walk(st.body, guards, [])
+            elif isinstance(st, ast.Expr) and isinstance(st.value, ast.Call) and isinstance(st.value.func, ast.Attribute) and ast.unparse(st.value.func.value) == acc:
+                m = st.value.func.attr
+                if m == "append" and st.value.args and isinstance(st.value.args[0], ast.Name):
+                    ok = guarded(st.value.args[0].id, guards, chain_tests)
+                    out.append((ok, f"collect_type_params: `{ast.unparse(st)}` {'is' if ok else 'is NOT'} guarded by a membership test", why))
+                elif m in ("extend", "insert", "__iadd__") or m == "append":
+                    out.append((False, f"collect_type_params: `{ast.unparse(st)[:70]}` adds elements without a membership test", why))
+            elif isinstance(st, ast.AugAssign) and ast.unparse(st.target) == acc:
+                out.append((False, f"collect_type_params: `{ast.unparse(st)[:70]}` adds elements without a membership test", why))
+
+    walk(fi.node.body, [], [])
+    if len(out) < 2:
+        out.append((None, f"collect_type_params: only {len(out)} insertions found", why))
+    return out
+
+
+def subclass_walk_contract(repo: Repo):
+    """iter_all_subclasses yields every direct subclass and descends into every one of them, unconditionally."""
+    from .srcmodel import M_HELPERS
+
+    why = ("discriminated unions take their candidate variants from this walk: a filtered or pruned walk makes concrete classes below the skipped class (an abstract "
+           "intermediate, say) ineligible although they carry a registered tag")
+    fi = repo.func(M_HELPERS, "iter_all_subclasses")
+    conds = [n for n in ast.walk(fi.node) if isinstance(n, (ast.If, ast.IfExp, ast.Continue, ast.Break, ast.Try)) or (isinstance(n, ast.comprehension) and n.ifs)]
+    ys = [n for n in ast.walk(fi.node) if isinstance(n, ast.Yield)]
+    yf = [n for n in ast.walk(fi.node) if isinstance(n, ast.YieldFrom) and "iter_all_subclasses(" in ast.unparse(n)]
+    loops = [n for n in ast.walk(fi.node) if isinstance(n, ast.For) and "__subclasses__()" in ast.unparse(n.iter)]
+    if conds:
+        return [(False, f"iter_all_subclasses contains a conditional ({type(conds[0]).__name__} at line {conds[0].lineno}): part of the subclass tree can be skipped", why)]
+    if ys and yf and loops:
+        return [(True, "iter_all_subclasses yields each direct subclass and recurses into it unconditionally", why)]
+    return [(None, "iter_all_subclasses has an unrecognised shape", why)]
